@@ -47,6 +47,12 @@ Theorem C03_header_counts_classes_end : forall rd hdr chunks f,
     bf_classes f = bs_insts items /\ bf_props f = bs_props items.
 Proof. exact decode_chunks_clauses. Qed.
 
+(* every PROP chunk carries exactly one value per instance of its class (the class declared by a preceding INST chunk) *)
+Theorem C03_prop_one_value_per_instance : forall rd hdr chunks f,
+  bspec_decode_chunks rd hdr chunks = Ok f ->
+  exists items, bs_parse_items rd [] chunks = Ok items /\ cl_prop_lengths items = true.
+Proof. exact decode_chunks_prop_lengths. Qed.
+
 (* for every file the document decoder accepts: the chunk length fields match the (de)compressed payloads and the file ends with
    the uncompressed END chunk holding `</roblox>` *)
 Theorem C03_chunk_lengths_and_end : forall rd zstd b f,
